@@ -23,6 +23,8 @@ import Driver.StdWrap
 import Driver.StdHist
 import Driver.Ver
 import Driver.Ledger
+import Driver.HTLedger
+import Driver.OpenBytes
 /-!
   momo_model: reads operation lines on stdin, prints one output line per operation.
   First line: `model <name> key=value …` selects the model. Lines starting with `#` are echoed.
@@ -31,6 +33,8 @@ open Driver
 
 def engines : List (String × Engine) := [
   ("ledger", Driver.Ledger.engine),
+  ("htledger", Driver.HTLedger.engine),
+  ("openbytes", Driver.OpenBytes.engine),
   ("stdwrap", Driver.StdWrap.engine),
   ("stdhist", Driver.StdHist.engine),
   ("ver", Driver.Ver.engine),
